@@ -14,6 +14,8 @@ var c01Bool = []string{
 	"a[?b > `1`]", "a[?b == `1`].b", "a[?!b]", "a[?b && a]", "(a || b).a", "a[*].b || b", "!a[0]",
 	"a | b | a", "(a)", "(a.b)[0]", "(a[*].b)[0]", "a[*].b | [0]", "a[*].(b)", "[a, b][0]", "{x: a}.x", "[a][0]",
 	"`null` | [@]", "`null` | {x: @}", "a.{x: b}", "a.[b]", "`false`", "`0`", "'a' == a", "a == `[1]`", "a[0][0]", "a[0].b[0]", "a.b.a.b",
+	"(a[*].b).a", "(a[?a].b).a", "(a[].b).a", "(a[1:].b).a", "(a.*.b).a", "(a[*].b).a[0]", "(a[*].b) | a", "(a[*].b)[0].a",
+	"a.*.b.*", "a.*.a.*.b", "a.*.b[0].*", "*.a.*", "a[*].a.*.b", "a[?a].a.*", "a[].a.*.b", "a.*.*.a", "a[*].a[*].b[0]", "a[?b].a[?a].b", "a[1:].a.b[0]", "a.*.a[?b].a", "[*].a.b.*",
 	"a[*][*]", "*[*]", "a[][*]", "a[*].b.*", "a.*.b", "a[*].*", "a[].b[]", "a[*].b[]", "a[?a][?b]", "a[?a].b[0]", "a[1:].b[0]", "a[:1][0]", "a[:1].b.a", "a[*][0]", "a[*][0][0]", "*.a[0]", "*.*", "*.a.b",
 }
 
@@ -219,7 +221,9 @@ func knownAdjacentProjection(expr string) bool {
 					isSlice = false
 				}
 			}
-			if prevProj && (isStar || isFilter || isSlice) {
+			if prevProj && !isFlatten {
+				// [*], a slice, a filter, an index or a multi-select directly behind a
+				// projection-forming selector
 				return true
 			}
 			prevProj = isStar || isFilter || isSlice || isFlatten
